@@ -19,7 +19,8 @@ func TestDev(t *testing.T) {
 		}
 	}
 	n, _ := strconv.Atoi(os.Getenv("N"))
-	for s := 1; s <= n; s++ {
+	lo, _ := strconv.Atoi(os.Getenv("LO"))
+	for s := lo + 1; s <= lo+n; s++ {
 		g := genGraph(uint64(s))
 		res := decide(g.sc)
 		for _, f := range res.Findings {
